@@ -401,6 +401,93 @@ out.append(index)'''
 
 
 
+# ----------------------------------------------------------------------------------------------------
+# laziness: where the code triggers a dask computation; the rest of get(); the custom getter of the chunk store
+
+_COMPUTE_ATTRS = {'compute', 'persist', 'store', 'tolist', 'item', '__array__', 'visualize', 'to_hdf5', 'to_zarr'}
+_COMPUTE_CALLS = {'da.store', 'da.compute', 'dask.compute', 'dask.persist', 'np.asarray', 'np.array',
+                  'np.asanyarray', 'np.ascontiguousarray', 'np.copy', 'np.copyto', 'da.to_npy_stack'}
+_GET_TEMPLATE = '''
+kept = [dask_getitem(array.dataset, keep) for array in arrays]
+if out is None:
+    out = [np.empty(array.shape, array.dtype) for array in kept]
+first = {}
+for array, target in zip(kept, out):
+    first.setdefault(array.name, (array, target))
+da.store([array for array, _ in first.values()], [target for _, target in first.values()], lock=False)
+for array, target in zip(kept, out):
+    stored = first[array.name][1]
+    if target is not stored:
+        target[...] = stored
+return out
+'''
+_GETTER_INIT_TEMPLATE = '''
+self.getter = getter
+self.array_name = array_name
+self.kwargs = kwargs
+self.shape = tuple(sum(c) for c in chunks)
+self.ndim = len(self.shape)
+self.dtype = np.dtype(dtype)
+'''
+_GETTER_GETITEM_TEMPLATE = 'return self.getter(self.array_name, slices, self.dtype, **self.kwargs)'
+
+
+def _computes(fn):
+    """number of calls in the body of fn that make dask compute (or turn a dask array into values)"""
+    n = 0
+    for node in ast.walk(fn):
+        if isinstance(node, ast.Call):
+            f = node.func
+            if isinstance(f, ast.Attribute) and f.attr in _COMPUTE_ATTRS:
+                n += 1
+            elif ast.unparse(f) in _COMPUTE_CALLS:
+                n += 1
+    return n
+
+
+def _body_text(fn):
+    return '\n'.join(ast.unparse(s) for s in _nodoc(fn.body))
+
+
+def item_store(repo, out):
+    """laziness: number of computing calls per accessor; exact skeleton of get(); the chunk store's custom getter."""
+    from vh.translate import normalise_source
+    tree = _parse(repo, REL)
+    cls = _class(tree, CLS, REL)
+    meta = 0
+    for nm in ('__init__', 'transforms', 'dataset', 'shape', 'dtype', '__len__', '__str__', '__repr__'):
+        meta += _computes(_func(cls, nm, REL))
+    for nm in ('dask_getitem', '_dask_oindex', '_simplify_index', '_callable_name'):
+        meta += _computes(_func(tree, nm, REL))
+    g = _func(cls, 'get', REL)
+    out.append('(* dask computations triggered by: construction / dataset / shape / dtype / len / str / repr / dask_getitem '
+               '(must be none), and by the body of get (one da.store) *)')
+    out.append('Definition c04_meta_computes : Z := %d.' % meta)
+    out.append('Definition c04_get_computes : Z := %d.' % _computes(g))
+    dflt = [ast.unparse(d) for d in g.args.defaults]
+    _expect(dflt == ['None'] and not g.args.kwonlyargs and g.args.vararg is None and g.args.kwarg is None,
+            'DaskLazyIndexer.get: signature / default of out')
+    _expect(_body_text(g) == normalise_source(_GET_TEMPLATE).strip(), 'DaskLazyIndexer.get: body changed')
+    out.append('(* get(): outputs allocated from the advertised shape/dtype of the selected arrays when out is None; ONE '
+               'da.store of the distinct dask names (lock=False); repeats copied from the stored output *)')
+    out.append('Definition c04_get_as_modelled : bool := true.')
+    rel = 'katdal/chunkstore.py'
+    ctree = _parse(repo, rel)
+    gcls = _class(ctree, '_ArrayLikeGetter', rel)
+    gi = _func(gcls, '__init__', rel)
+    _expect([a.arg for a in gi.args.args] == ['self', 'getter', 'array_name', 'chunks', 'dtype']
+            and gi.args.kwarg is not None and gi.args.kwarg.arg == 'kwargs'
+            and _body_text(gi) == normalise_source(_GETTER_INIT_TEMPLATE).strip(), '_ArrayLikeGetter.__init__ changed')
+    gg = _func(gcls, '__getitem__', rel)
+    _expect([a.arg for a in gg.args.args] == ['self', 'slices', 'asarray', 'lock']
+            and [ast.unparse(d) for d in gg.args.defaults] == ['False', 'None']
+            and _body_text(gg) == normalise_source(_GETTER_GETITEM_TEMPLATE).strip(),
+            '_ArrayLikeGetter.__getitem__ changed')
+    out.append('(* _ArrayLikeGetter: shape = per-axis sum of the chunk sizes; __getitem__ hands the slices of the block to '
+               'the chunk getter unchanged (no fusion, no offset) *)')
+    out.append('Definition c04_getter_passes_slices : bool := true.')
+
+
 def dataset_code(repo):
     """the (opcode, a, b) triples of DaskLazyIndexer.dataset in the given tree, or None when it is refused"""
     try:
@@ -410,4 +497,4 @@ def dataset_code(repo):
         return None
 
 
-ITEMS = [item_dataset, item_range_to_slice, item_getitem]
+ITEMS = [item_dataset, item_range_to_slice, item_getitem, item_store]
